@@ -157,8 +157,7 @@ pub fn gen_comp(r: &mut StdRng, size: usize, subs: Subs) -> A {
       let f = *pick(r, &KW_FIELDS);
       sources.push(Src { terms: true, name: format!("k{i}"), field: f.to_string(), fk: "kw", iv4: 0 });
     } else {
-      // mostly the f64 field: histogram sources over i64 fields return nothing (known finding S30a)
-      let (f, fk, _, _) = if chance(r, 2, 3) { NUM_FIELDS[2] } else { num_field(r) };
+      let (f, fk, _, _) = num_field(r);
       let iv4 = *pick(r, &[4i64, 8, 2, 6, 12, 1]);
       sources.push(Src { terms: false, name: format!("k{i}"), field: f.to_string(), fk, iv4 });
     }
@@ -668,6 +667,14 @@ fn agg_doc(r: &mut StdRng, k: &Knobs, id: &str, ver: u64, vocab: usize) -> Value
     let n = r.gen_range(1..=3);
     let v: Vec<f64> = (0..n).map(|_| r.gen_range(0..=24) as f64 / 4.0).collect();
     d["price"] = json!(v);
+  }
+  // numbers whose decimal text and numeric order differ (5 < 10 < 100, negative values): bucket keys
+  // are compared as typed values, not as text
+  if chance(r, 1, 3) {
+    d["rank"] = json!(*pick(r, &[-3i64, 0, 5, 10, 12, 100, 20, 7]));
+  }
+  if chance(r, 1, 4) {
+    d["price"] = json!(*pick(r, &[10.0f64, 12.5, 25.0, 100.0, 7.5, 5.0]));
   }
   d
 }
